@@ -597,7 +597,7 @@ func runC24(c *Ctx) {
 			c.Undecided("R24a", key, r.pos, "%s calls %s: %s", c21FuncName(r.site.caller), c24ShortName(r.site.callee), r.detail)
 		}
 	}
-	c.MinCount("R24a", "call sites of ParseFlags in the module", len(mine), 16)
+	c.MinCount("R24a", "call sites of ParseFlags in the module", len(mine), 12)
 	// INFO for C19/R19b: other nil-on-error callees
 	nV, nU := 0, 0
 	sort.Slice(others, func(i, j int) bool { return c.pos(others[i].pos) < c.pos(others[j].pos) })
